@@ -1606,7 +1606,8 @@ class Exec:
             out.append({"e": "exit", "how": name, "l": line})
             return None
         callee = self.v.defs.get(usr)
-        if callee is not None and self.depth < 12 and self.hooks.want_inline(self, callee, e):
+        if callee is not None and self.depth < 12 and (callee.get("lambda") or self.hooks.want_inline(self, callee, e)):
+            # (a closure's body is always part of the function that wrote it)
             sub = Exec(self.v, callee, args=args, this=this, hooks=self.hooks, casts=self.casts,
                        depth=self.depth + 1, mem=self.mem)
             if callee.get("lambda"):
